@@ -12,10 +12,10 @@
    [resumes_like_go_on] is the same against the run that wrote the state and went on (they coincide when
    writing the state does not change the object), [saves_what_it_loaded]: writing the state right after
    loading it reproduces it. *)
-From Coq Require Import ZArith QArith List Bool Reals Lia.
+From Coq Require Import ZArith QArith List Bool Reals Lia Permutation.
 From CV Require Import Base.Num Base.RNum C03.ResumeModel C03.ResumeProofs C06.RestraintModel C03.ObjectsModel
   C03.RestraintResume C03.RestraintMachine C03.ObjectsProofs C03.SystemProofs C03.Witness
-  C03.AbfObject C03.AbfResume C03.AbfSystem C03.MetaObject C03.MetaResume C03.FormatModel C03.FormatProofs.
+  C03.AbfObject C03.AbfResume C03.AbfSystem C03.MetaObject C03.MetaResume C03.FormatModel C03.FormatProofs C03.BlocksModel C03.BlocksProofs.
 From CV Require C05.MetaModel C04.ABFModel.
 Import ListNotations.
 Local Open Scope Z_scope.
@@ -191,6 +191,27 @@ Proof.
   - intros O c s. exact (r_formats_agree O c s).
 Qed.
 Print Assumptions C03_formats_equivalent.
+
+(* Several objects in one state file (colvarmodule::read_objects_state).  With distinct (keyword, name) pairs among
+   the objects and among the blocks: (1) the text reader is block-wise -- every object ends up as if it had read its
+   own block alone (or nothing, if the file has no block for it), whatever else the file contains; (2) the order of
+   the blocks does not matter; (3) on a file written by the same configuration the text reader and the binary reader
+   (which reads the blocks in the order of the objects) give the same objects.  So the single-object theorems above
+   apply to each object of a configuration with several variables and biases. *)
+Theorem C03_blockwise_loading :
+  forall (P S : Type) (load : nat -> P -> S -> S) (save : nat -> S -> P),
+    (forall file objs, NoDup (map okey objs) -> NoDup (map bkey file) ->
+       read_text load file objs = map (read_own load file) objs) /\
+    (forall f f' objs, NoDup (map okey objs) -> NoDup (map bkey f) -> Permutation f f' ->
+       read_text load f objs = read_text load f' objs) /\
+    (forall src objs, NoDup (map okey src) -> map okey objs = map okey src ->
+       read_text load (write_file save src) objs = read_binary load (write_file save src) objs).
+Proof.
+  intros P S load save. split; [exact (read_text_blockwise load)|]. split.
+  - exact (read_text_order_independent load).
+  - exact (read_text_binary_agree load save).
+Qed.
+Print Assumptions C03_blockwise_loading.
 
 (* With same-step total forces the total force of the re-executed step is reported again by the resumed run
    (with lagged total forces a restarted engine does not have it: it is excluded from abf_out_eq0). *)
